@@ -970,11 +970,18 @@ static Ival iv_var(Var v, int depth) {
   return r;
 }
 static Ival iv_poly(const Poly& p, int depth) {
+  // monomials are grouped by their non-constant part: the coefficient (rational times constant atoms such as sqrt(2)) is enclosed
+  // first, so that  q*e - r*sqrt(c)*e  is enclosed as (q - r*sqrt(c))*e and not term by term
+  std::map<Mono, Ival> groups;
+  for (auto& kv : p) { Mono rest; Ival cf = iv_const(kv.second);
+    for (Var v : kv.first) { Poly one = p_var(v); if (E().vars[v].kind != V_FREE && E().vars[v].kind != V_UNINIT && p_is_const(one)) { mpf_class val(0, 512); if (!eval_var(v, val, 0)) return Ival{mpf_class(0, 256), mpf_class(0, 256), false};
+        Ival c{mpf_class(val, 256), mpf_class(val, 256), true}; widen(c); cf = iv_mul(cf, c); } else rest.push_back(v); }
+    auto it = groups.find(rest); if (it == groups.end()) groups.emplace(rest, cf); else { it->second.lo += cf.lo; it->second.hi += cf.hi; widen(it->second); } }
   Ival s{mpf_class(0, 256), mpf_class(0, 256), true};
-  for (auto& kv : p) { Ival t = iv_const(kv.second);
+  for (auto& g : groups) { Ival t = g.second; const Mono& mo = g.first;
     // equal factors are squared together (x*x >= 0)
-    for (size_t i = 0; i < kv.first.size();) { size_t j = i; while (j < kv.first.size() && kv.first[j] == kv.first[i]) j++;
-      Ival f = iv_var(kv.first[i], depth); if (!f.ok) return Ival{mpf_class(0, 256), mpf_class(0, 256), false};
+    for (size_t i = 0; i < mo.size();) { size_t j = i; while (j < mo.size() && mo[j] == mo[i]) j++;
+      Ival f = iv_var(mo[i], depth); if (!f.ok) return Ival{mpf_class(0, 256), mpf_class(0, 256), false};
       Ival pw = f; for (size_t k = i + 1; k < j; k++) pw = iv_mul(pw, f);
       if ((j - i) % 2 == 0 && pw.lo < 0) pw.lo = 0;
       t = iv_mul(t, pw); i = j; }
@@ -1284,6 +1291,10 @@ static void check_rel(const Poly& p, int mode, const std::string& label) {
   }
   if (mode == 1 && sign_syntactic(p) > 0) { if (e.st) e.st->nf_trivial++; return; }
   { Poly sq; if (square_two_terms(p, sq)) { if (e.st) e.st->asserts--; check_rel(sq, mode, label); return; } }
+  // inequalities that hold on the whole assumed box (a weaker assumption than the path condition) need no query
+  if (mode != 0 && e.in_path && !e.box.empty()) { Ival iv = iv_poly(p, 0);
+    if (getenv("SX_TRACE")) fprintf(stderr, "[interval] %s ok=%d lo=%g hi=%g terms=%zu\n", label.substr(0, 60).c_str(), (int)iv.ok, iv.lo.get_d(), iv.hi.get_d(), p.size());
+    if (iv.ok && (mode == 1 ? iv.lo >= 0 : iv.lo > 0)) { if (e.st) { e.st->interval_decided++; e.st->nontrivial_sites.insert(label); } e.path_symbolic = true; return; } }
   if (e.st) e.st->nontrivial_sites.insert(label);
   e.path_symbolic = true;
   z3::expr z = z_of(p);
